@@ -546,69 +546,6 @@ def callee_name_of(c: ast.Call) -> str:
 # C09 / C10 / C13 specifics
 
 
-def grouping_order(ctx: Ctx, join_guard: bool = True) -> None:
-    """C09.3: nothing buffered is lost; the type filter precedes both branches."""
-    p = ctx.p
-    g = p.func("simfile.notes.group:group_notes")
-    j = g.nested.get("join_heads_to_tails_")
-    require(j is not None, "group_notes.join_heads_to_tails_ not found")
-    for nm_ in ("join_head_to_tail", "flush", "maybe_buffer"):
-        require(g.nested.get(nm_) is not None, f"group_notes.{nm_} not found (closure merged, moved or renamed)")
-    cfg = ctx.cfg(j)
-    loops = [lp for lp in for_loops(j) if isinstance(lp.iter, ast.Name) and lp.iter.id == j.param_names()[0]]
-    main = one(loops, f"main loop of {j.fq}")
-    mn = cfg.node_for(main)
-    from ..pat import matches as _pm
-    cl = [lp for lp in for_loops(j) if lp is not main and not in_body(main, lp) and _pm("$d.values()", lp.iter) and isinstance(lp.iter.func.value, ast.Name)
-          and any(b.kind == "assign" and isinstance(b.value, ast.Dict) and not b.value.keys for b in locals_of(g).b.get(lp.iter.func.value.id, []))]
-    ok1 = False
-    if len(cl) == 1:
-        cn = cfg.node_for(cl[0])
-        calls_ = [c for st in cl[0].body for c in walk_no_nested(st) if isinstance(c, ast.Call) and callee(ctx, j, c) is g.nested.get("join_head_to_tail")]
-        ok1 = cfg.dominates(mn, cn) and cfg.must_pass([cn]) is None and len(calls_) == 1 and len(calls_[0].args) == 2 \
-            and isinstance(calls_[0].args[1], ast.Constant) and calls_[0].args[1].value is None and isinstance(calls_[0].args[0], ast.Name) and calls_[0].args[0].id == cl[0].target.id
-    ctx.expect("R-ORDER", j, "unclosed heads are resolved after the stream ends", ok1, "", "no 'for head in held_columns.values(): join_head_to_tail(head, None)' after the main loop on every path", node=main)
-    fl = [n for n in body_walk(j.node) if isinstance(n, ast.YieldFrom) and isinstance(n.value, ast.Call) and callee(ctx, j, n.value) is g.nested.get("flush") and not in_body(main, n)]
-    ok2 = False
-    if fl:
-        fn_ = cfg_node_of(cfg, j, fl[-1])
-        ok2 = cfg.must_pass([fn_]) is None and (not cl or cfg.dominates(cfg.node_for(cl[0]), fn_))
-    ctx.expect("R-ORDER", j, "the buffer is flushed at the end on every path", ok2, "", "no final 'yield from flush()' after the orphan clean-up", node=main)
-    # every non-tail note is emitted or buffered
-    mb = [n for n in body_walk(j.node) if isinstance(n, ast.YieldFrom) and isinstance(n.value, ast.Call) and callee(ctx, j, n.value) is g.nested.get("maybe_buffer") and in_body(main, n)]
-    ok3 = False
-    if len(mb) == 1:
-        fs = facts(ctx, j, mb[0])
-        ok3 = len(fs) == 1 and fs[0][1] and ast.unparse(fs[0][0]) == f"{main.target.id}.note_type != NoteType.TAIL"
-    ctx.expect("R-ORDER", j, "every note other than a tail is emitted or buffered", ok3, "", "maybe_buffer(note) is not reached exactly for non-tail notes", node=main)
-    # type filter dominates the join/no-join branch
-    gcfg = ctx.cfg(g)
-    filt = [b for b in locals_of(g).b.get("notes", []) if b.kind == "assign" and isinstance(b.value, ast.Call) and isinstance(b.value.func, ast.Name) and b.value.func.id == "filter"]
-    ok4 = False
-    if len(filt) == 1:
-        fc = filt[0].value
-        lam = fc.args[0] if fc.args and isinstance(fc.args[0], ast.Lambda) else None
-        ok4 = lam is not None and ast.unparse(lam.body) == f"{lam.args.args[0].arg}.note_type in include_note_types" and len(fc.args) == 2 \
-            and isinstance(fc.args[1], ast.Name) and fc.args[1].id == "notes"
-        fnode = cfg_node_of(gcfg, g, filt[0].node)
-        users = [n for n in body_walk(g.node) if isinstance(n, ast.Name) and n.id == "notes" and isinstance(n.ctx, ast.Load) and not any(n is x for x in ast.walk(fc))]
-        ok4 = ok4 and all(gcfg.dominates(fnode, cfg_node_of(gcfg, g, u)) for u in users) and bool(users)
-    ctx.expect("R-ORDER", g, "only the included note types are considered, with or without joining", ok4, "", "the include_note_types filter does not dominate every use of the stream", node=g.node)
-    # joining happens exactly when the caller asked for it (it is also what applies the orphan policies)
-    jc = [c for c in calls(g) if callee(ctx, g, c) is j]
-    okj = False
-    detail = ""
-    if len(jc) == 1:
-        fsj = [(ast.unparse(a), pol) for a, pol in facts(ctx, g, jc[0])]
-        detail = str(fsj)
-        okj = fsj == [("join_heads_to_tails", True)] and len(jc[0].args) == 1 and isinstance(jc[0].args[0], ast.Name) and jc[0].args[0].id == "notes"
-    if join_guard:
-      ctx.expect("R-ORDER", g, "heads are joined to tails (and orphan policies applied) exactly when join_heads_to_tails is set", okj, detail,
-               f"the joining pass runs under {detail}: with the option set but the extra condition false, orphaned heads/tails are emitted as plain notes instead of being raised about or dropped", node=g.node)
-    # row grouping by beat, in stream order
-    gls = _groupby_loops(ctx, g)
-    okg = len(gls) == 1 and ast.unparse(gls[0][4].body) == f"{gls[0][4].args.args[0].arg}.beat"
-    ctx.expect("R-TABLE", g, "same-beat notes are grouped by beat in stream order", okg, "", "", node=g.node)
 
 
 SPEC_COUNTS = {
@@ -928,21 +865,6 @@ def columns_rule(ctx: Ctx) -> None:
            why="find() returns -1 when there is no comma, and the slice then silently drops the last character (single-measure note data)")
 
 
-def attach_tail_rule(ctx: Ctx) -> None:
-    """C09/C10: the joined note takes the place of its head in the buffer: the slot is found by looking the head up in the buffer as it is now."""
-    p = ctx.p
-    f = p.func("simfile.notes.group:group_notes.attach_tail")
-    h, t = f.param_names()[:2]
-    from .tables import Dec, closed_text, judge as tjudge, sums_of as tsums
-    sums = tsums(ctx, f)
-    # the buffer: the deque of the enclosing group_notes
-    g = p.func("simfile.notes.group:group_notes")
-    bufs = [n for n, bs in locals_of(g).b.items() for b in bs if b.kind == "assign" and isinstance(b.value, ast.Call) and callee_name(ctx, g, b.value).endswith("deque")]
-    buffer = one(bufs, "the deque buffer of group_notes")
-    want = (f"{buffer}[{buffer}.index({h})] = NoteWithTail(beat={h}.beat, column={h}.column, note_type={h}.note_type, tail_beat={t}.beat, player={h}.player, keysound_index={h}.keysound_index)",)
-    decs = [Dec(dict(s_.plain_assign()), tuple(closed_text(s_, e, keep=[h, t, buffer]) for e in s_.effects if e.kind in ("store", "aug", "delete", "expr")), s_) for s_ in sums]
-    tjudge(ctx, "R-REBUILD", f, "the head's slot in the buffer (found by searching the buffer for the head) is replaced by the joined note carrying the head's fields and the tail's beat", decs, [],
-           lambda a: want, why="a remembered position goes stale when notes leave or are removed from the buffer; the joined note must be emitted at the head's position, once")
 
 
 def keysound_extraction(ctx: Ctx) -> None:
@@ -980,87 +902,3 @@ def keysound_extraction(ctx: Ctx) -> None:
            why="the caller's keysound_indices list is an out-parameter: a path that returns the stripped row without filling it (a cached answer) loses the keysound indices of that row")
 
 
-def grouping_guards(ctx: Ctx) -> None:
-    """C09.5: the documented pairing rules as guard sets of join_heads_to_tails_ / join_head_to_tail / maybe_buffer."""
-    p = ctx.p
-    g = p.func("simfile.notes.group:group_notes")
-    j = g.nested["join_heads_to_tails_"]
-    jh = g.nested["join_head_to_tail"]
-    mb = g.nested["maybe_buffer"]
-    fu = g.nested["flush_until_held_note"]
-    loops = [lp for lp in for_loops(j) if isinstance(lp.iter, ast.Name) and lp.iter.id == j.param_names()[0]]
-    main = one(loops, f"main loop of {j.fq}")
-    n = main.target.id
-    held = None
-    for c in calls(j):
-        from ..pat import match
-        m = match("$h.pop($n.column, None)", c)
-        if m is not None and ast.unparse(m["n"]) == n:
-            held = ast.unparse(m["h"])
-    require(held is not None, f"{j.fq}: 'head = <held>.pop(note.column, None)' not found")
-    # 1. a note closes/interrupts exactly when its column is held or it is a tail
-    jc = [c for c in calls(j) if callee(ctx, j, c) is jh and in_body(main, c)]
-    c = one(jc, "join_head_to_tail(head, note) call in the main loop")
-    fs = [(ast.unparse(a), pol) for a, pol in facts(ctx, j, c)]
-    want = [(f"{n}.column in {held} or {n}.note_type == NoteType.TAIL", True)]
-    alt = [(f"{n}.note_type == NoteType.TAIL or {n}.column in {held}", True)]
-    ctx.expect("R-TABLE", j, "a head is closed or interrupted exactly by a tail or by any note in its (held) column", fs in (want, alt), str(fs), f"pairing is attempted under {fs}", node=c)
-    a0, a1 = c.args
-    hb = [b for b in locals_of(j).b.get(ast.unparse(a0), []) if b.kind == "assign" and in_body(main, b.node)]
-    okh = ((len(hb) == 1 and ast.unparse(hb[0].value) == f"{held}.pop({n}.column, None)") or ast.unparse(inline(a0, j)) == f"{held}.pop({n}.column, None)") and ast.unparse(a1) == n
-    ctx.expect("R-TABLE", j, "the head paired is the one open in the note's own column (and it is no longer held afterwards)", okh, "", "", node=c)
-    yf = [x for x in body_walk(j.node) if isinstance(x, ast.YieldFrom) and isinstance(x.value, ast.Call) and callee(ctx, j, x.value) is fu]
-    okf = len(yf) == 1 and [(ast.unparse(a), pol) for a, pol in facts(ctx, j, yf[0])] in (want, alt)
-    ctx.expect("R-ORDER", j, "after a pairing attempt everything up to the next still-held head is released", okf, "", "", node=main)
-    # 2. heads are registered as held
-    st = [x for x in body_walk(j.node) if isinstance(x, ast.Assign) and isinstance(x.targets[0], ast.Subscript) and ast.unparse(x.targets[0]) == f"{held}[{n}.column]"]
-    oks = False
-    if len(st) == 1:
-        fs2 = facts(ctx, j, st[0])
-        sets_ = []
-        for a, pol in fs2:
-            if pol and isinstance(a, ast.Compare) and isinstance(a.ops[0], ast.In) and ast.unparse(a.left) == f"{n}.note_type":
-                v = try_ev(ctx, j, a.comparators[0])
-                if v is not None:
-                    sets_.append({x.name for x in v if isinstance(x, EnumVal)})
-        oks = sets_ == [{"HOLD_HEAD", "ROLL_HEAD"}] and len(fs2) == 1 and ast.unparse(st[0].value) == n
-    ctx.expect("R-TABLE", j, "exactly hold and roll heads open a column", oks, "", "", node=main)
-    # the pairing attempt precedes the registration (a head interrupting a head closes the old one first)
-    cfg = ctx.cfg(j)
-    if len(st) == 1:
-        ctx.expect("R-ORDER", j, "an interrupting head closes the open one before it opens the column itself", cfg_node_of(cfg, j, st[0]) in cfg.reachable(cfg_node_of(cfg, j, c), removed=[cfg.node_for(main)]), "", "", node=main)
-    # 3. join_head_to_tail: orphan tail when no head; orphan head when the closing note is missing or not a tail
-    mh, mt = jh.param_names()
-    at = g.nested["attach_tail"]
-    ac = [x for x in calls(jh) if callee(ctx, jh, x) is at]
-    oka = False
-    if len(ac) == 1:
-        fs3 = sorted((ast.unparse(a), pol) for a, pol in facts(ctx, jh, ac[0]))
-        oka = fs3 == sorted([(mh, True), (mt, True), (f"{mt}.note_type != NoteType.TAIL", False)])
-        hv, tv = [inline(x, jh) for x in ac[0].args]
-        oka = oka and ast.unparse(hv) == mh and ast.unparse(tv) == mt
-    ctx.expect("R-TABLE", jh, "a head is joined exactly when there is an open head and the closing note is a tail", oka, "", "", node=jh.node)
-    # orphan-tail policy is consulted exactly when there is no open head; orphan-head policy when there is one and no tail closes it
-    from .records import _enum_tests
-    tests = _enum_tests(ctx, jh)
-    for subj, cond_desc, want_facts in (("orphaned_tail", "no open head", [(mh, False)]),
-                                         ("orphaned_head", "an open head and no closing tail", None)):
-        key = norm(ast.Name(id=subj, ctx=ast.Load()))
-        items = tests.get(key, [])
-        okp = bool(items)
-        for cmp_, _, _ in items:
-            fsx = [(ast.unparse(a), pol) for a, pol in facts(ctx, jh, cmp_) if not ast.unparse(a).startswith(subj)]
-            if want_facts is not None:
-                okp = okp and fsx == want_facts
-            else:
-                okp = okp and (mh, True) in fsx and any(a == f"not {mt} or {mt}.note_type != NoteType.TAIL" and pol for a, pol in fsx)
-        ctx.expect("R-TABLE", jh, f"the {subj} policy applies exactly when there is {cond_desc}", okp, "", "", node=jh.node)
-    # 4. maybe_buffer: buffered while any column is held, otherwise flushed and emitted
-    nb = mb.param_names()[0]
-    outs = {}
-    for x in body_walk(mb.node):
-        if isinstance(x, ast.Call) and ast.unparse(x).endswith(f".append({nb})"):
-            outs["append"] = [(ast.unparse(a), pol) for a, pol in facts(ctx, mb, x)]
-        if isinstance(x, ast.Yield) and ast.unparse(x.value) == nb:
-            outs["yield"] = [(ast.unparse(a), pol) for a, pol in facts(ctx, mb, x)]
-    ctx.expect("R-TABLE", mb, "a note is buffered while a hold is open and emitted directly otherwise", outs == {"append": [(held, True)], "yield": [(held, False)]}, str(outs), str(outs), node=mb.node)
